@@ -114,6 +114,8 @@ def replay_and_force(chk, out, cfg_name, reps, stride, stats):
     cases = C.read_ndjson(path)
     stats["cases"] += len(cases)
     stats["nontrivial_cases"] += sum(1 for c in cases if shares_cell(c))
+    if cfg_name == "chain":
+        reps = max(reps, 60)      # few cases; the window of two cell locks held at once is narrow
     r = vh_json(["replay", path, reps])
     stats["replay_runs"] += r["runs"]
     stats["outcomes_observed"] += r["outcomes_observed"]
@@ -131,7 +133,7 @@ def replay_and_force(chk, out, cfg_name, reps, stride, stats):
         sig = {"kind": m["kind"], "config": m.get("config"), "texts": m.get("texts", m.get("text")),
                "route": m.get("route")}
         chk.violation(sig, m)
-    if cases and cases[0].get("orders"):
+    if cases and cases[0].get("orders") and not cases[0].get("chained"):
         f = vh_json(["forced", path, stride])
         stats["forced_orders"] += f["runs"]
         if not stats["sampled_forced"]:
@@ -281,19 +283,21 @@ def run(tier):
     if thorough:
         tlc(chk, "ops_thorough", out, w, "2 threads x 1 cell x <=2 ops, all 12 operators incl. failing operands, *c; VIEW hides hist; " + INVS, timeout=3000)
         tlc(chk, "cells_thorough", out, w, "2 threads x 2 cells x <=2 ops (shared and unshared cells); " + INVS)
+        tlc(chk, "chain", out, w, "2 threads x 2 cells, chained assignments x = y = n in the same and in opposite orders; " + INVS)
         tlc(chk, "render_thorough", out, w, "2 threads x {s: mut any holding int/itself/c, c} x <=2 ops incl. render; " + INVS, timeout=3000)
         tlc(chk, "t3x", out, w, "3 threads x 1 cell x <=2 ops; VIEW hides hist; " + INVS, timeout=3000)
         tlc(chk, "inc", out, w, "3 threads x 3 increments: IncrementsPermutation, NoLostUpdate", timeout=3000)
         tlc(chk, "render_nopref", out, w, "render space without writer preference (safety under both lock policies)")
         tlc(chk, "live_thorough", out, w, "FairSpec: Termination (<>AllDone), no state constraint")
-        emit = ["ops", "cells", "render", "t3x", "inc"]
+        emit = ["ops", "cells", "chain", "render", "t3x", "inc"]
     else:
         tlc(chk, "ops", out, w, "2 threads x 1 cell, all 12 operators incl. failing operands, *c; " + INVS)
         tlc(chk, "cells", out, w, "2 threads x 2 cells (shared and unshared cells); " + INVS)
+        tlc(chk, "chain", out, w, "2 threads x 2 cells, chained assignments x = y = n in the same and in opposite orders; " + INVS)
         tlc(chk, "render", out, w, "2 threads x {s: mut any holding int/itself/c, c} incl. render; " + INVS)
         tlc(chk, "t3", out, w, "3 threads x 1 cell x 1 op each, and 3 x 2 increments; " + INVS)
         tlc(chk, "live", out, w, "FairSpec: Termination (<>AllDone), no state constraint")
-        emit = ["ops", "cells", "render", "t3"]
+        emit = ["ops", "cells", "chain", "render", "t3"]
     tlc(chk, "t3_nopref", out, w, "3 threads without writer preference (safety under both lock policies)")
     tlc(chk, "f17", out, w, "s = s || render s on a self-containing cell: no deadlock with the guard released before rendering")
     tlc(chk, "f17_nested", out, 1, "EXPECTED FAILURE: guard held while rendering (pre-df0b31e) deadlocks", expect="deadlock")
